@@ -1,8 +1,93 @@
 //! C12: page enumeration.  Case: (case <doc> <expect>) where expect is
 //!   (leaves (id gen)...)  -- the generator's own DFS leaves of the tree it built, or
 //!   (malformed)           -- only termination / page-ness / numbering are checked.
+use lopdf::{Document, Object, ObjectId};
 use lvh::conv::*;
 use lvh::sx::Sx;
+use std::collections::HashSet;
+
+/// The harness's own reading of the page tree (shares nothing with lopdf's accessors): follow reference chains by
+/// hand, a node is a dictionary whose Type is the name Page or Pages, the Kids of a Pages node are (behind references)
+/// an array of references.  Returns false when the graph below `id` is not a tree of such nodes with pairwise
+/// distinct ids (then DFS order is not defined and only the total-ness checks apply).
+fn resolve<'a>(doc: &'a Document, mut o: &'a Object) -> Option<&'a Object> {
+    for _ in 0..1000 {
+        match o {
+            Object::Reference(id) => o = doc.objects.get(id)?,
+            _ => return Some(o),
+        }
+    }
+    None
+}
+
+fn walk(doc: &Document, id: ObjectId, seen: &mut HashSet<ObjectId>, out: &mut Vec<ObjectId>, height: &mut usize) -> bool {
+    if !seen.insert(id) {
+        return false;
+    }
+    let d = match doc.objects.get(&id).and_then(|o| resolve(doc, o)) {
+        Some(Object::Dictionary(d)) => d,
+        _ => return false,
+    };
+    let ty = match d.get(b"Type") {
+        Ok(Object::Name(n)) => n.as_slice(),
+        _ => return false,
+    };
+    if ty == b"Page" {
+        out.push(id);
+        *height = 0;
+        return true;
+    }
+    if ty != b"Pages" {
+        return false;
+    }
+    let kids = match d.get(b"Kids").ok().and_then(|k| resolve(doc, k)) {
+        Some(Object::Array(a)) => a,
+        _ => return false,
+    };
+    let mut h = 0;
+    for k in kids {
+        let kid = match k {
+            Object::Reference(kid) => *kid,
+            _ => return false,
+        };
+        let mut hk = 0;
+        if !walk(doc, kid, seen, out, &mut hk) {
+            return false;
+        }
+        h = h.max(hk);
+    }
+    *height = h + 1;
+    true
+}
+
+/// Some((leaves in depth-first left-to-right order, height)) when Root -> Pages leads to a proper tree.
+fn own_dfs(doc: &Document) -> Option<(Vec<ObjectId>, usize)> {
+    let root = match doc.trailer.get(b"Root") {
+        Ok(Object::Reference(id)) => *id,
+        _ => return None,
+    };
+    let cat = match doc.objects.get(&root).and_then(|o| resolve(doc, o)) {
+        Some(Object::Dictionary(d)) => d,
+        _ => return None,
+    };
+    let pages = match cat.get(b"Pages") {
+        Ok(Object::Reference(id)) => *id,
+        _ => return None,
+    };
+    let mut seen = HashSet::new();
+    let mut out = vec![];
+    let mut h = 0;
+    // the root must be an intermediate node
+    let is_node = matches!(doc.objects.get(&pages).and_then(|o| resolve(doc, o)), Some(Object::Dictionary(d)) if matches!(d.get(b"Type"), Ok(Object::Name(n)) if n == b"Pages"));
+    if is_node && walk(doc, pages, &mut seen, &mut out, &mut h) {
+        Some((out, h))
+    } else {
+        None
+    }
+}
+
+/// documented bound of the property (PAGE_TREE_DEPTH_LIMIT of src/document.rs; the model reads the real constant)
+const DEPTH_LIMIT: usize = 256;
 
 fn main() {
     lvh::drive(|x| {
@@ -42,11 +127,21 @@ fn main() {
         if iter.len() > doc.objects.len() {
             verdict = "FAIL more pages than objects".into();
         }
+        // depth-first order, twice independently: the harness's own walk over the object graph (whenever that graph is
+        // a proper tree within the documented height) and the leaf list the generator recorded while building the tree
+        let own = own_dfs(&doc);
+        if let Some((want, h)) = &own {
+            if *h <= DEPTH_LIMIT + 1 && *want != iter {
+                verdict = format!("FAIL page_iter {:?} differs from the depth-first leaves {:?} (harness walk)", iter, want);
+            }
+        }
         if let Some(exp) = a.get(1) {
             if exp.tag() == Some("leaves") {
                 let want: Vec<_> = exp.args().iter().filter_map(oid_of_sx).collect();
                 if want != iter {
                     verdict = format!("FAIL page_iter {:?} differs from DFS leaves {:?}", iter, want);
+                } else if own.as_ref().map(|(w, _)| w) != Some(&want) {
+                    verdict = "FAIL machinery: generator and harness disagree on the tree".into();
                 }
             }
         }
